@@ -47,7 +47,8 @@ def canon(v, depth=0):
     if isinstance(v, kw.Keyword):
         return ["kw", v.ns, v.name, v is kw.keyword(v.name, ns=v.ns)]
     if isinstance(v, sym.Symbol):
-        return ["sym", v.ns, v.name]
+        # the flag is what a program sees when it looks this symbol up in a hashed collection
+        return ["sym", v.ns, v.name, hash(v) == hash(sym.symbol(v.name, ns=v.ns))]
     if isinstance(v, re.Pattern):
         return ["re", v.pattern, v.flags]
     if isinstance(v, uuid.UUID):
@@ -57,12 +58,20 @@ def canon(v, depth=0):
     if isinstance(v, IRecord):
         return ["record", type(v).__name__, sorted(([canon(k, depth + 1), canon(x, depth + 1)] for k, x in v.items()),
                                                     key=lambda p: json.dumps(p, sort_keys=True, default=str))]
+    def fresh(x):
+        if isinstance(x, sym.Symbol):
+            return sym.symbol(x.name, ns=x.ns)
+        if isinstance(x, kw.Keyword):
+            return kw.keyword(x.name, ns=x.ns)
+        return x
+
     if isinstance(v, (lmap.PersistentMap, dict)):
         items = sorted(([canon(k, depth + 1), canon(x, depth + 1)] for k, x in v.items()),
                        key=lambda p: json.dumps(p, sort_keys=True, default=str))
-        return ["map", items, canon(getattr(v, "meta", None), depth + 1)]
+        return ["map", items, canon(getattr(v, "meta", None), depth + 1), all(fresh(k) in v for k in list(v.keys()))]
     if isinstance(v, (lset.PersistentSet, set, frozenset)):
-        return ["set", sorted((canon(x, depth + 1) for x in v), key=lambda p: json.dumps(p, sort_keys=True, default=str))]
+        return ["set", sorted((canon(x, depth + 1) for x in v), key=lambda p: json.dumps(p, sort_keys=True, default=str)),
+                all(fresh(x) in v for x in list(v))]
     if isinstance(v, vec.PersistentVector):
         return ["vec", [canon(x, depth + 1) for x in v], canon(v.meta, depth + 1)]
     if isinstance(v, (llist.PersistentList, ISeq)):
